@@ -617,9 +617,10 @@ func setNthValue(ctx context.Context, scope *ReferenceScope, partition Partition
 				continue
 			}
 
+			var cand value.Primary
 			recordIdx := partition[i]
 			if v, ok := valueCache[recordIdx]; ok {
-				val = v
+				cand = v
 			} else {
 				anScope.Records[0].recordIndex = recordIdx
 				p, err := Evaluate(ctx, anScope, expr.Args[0])
@@ -627,14 +628,15 @@ func setNthValue(ctx context.Context, scope *ReferenceScope, partition Partition
 					return nil, err
 				}
 				valueCache[recordIdx] = p
-				val = p
+				cand = p
 			}
-			if expr.IgnoreNulls() && value.IsNull(val) {
+			if expr.IgnoreNulls() && value.IsNull(cand) {
 				continue
 			}
 
 			count++
 			if count == n {
+				val = cand
 				break
 			}
 		}
